@@ -399,6 +399,13 @@ def gen_targeted(rng, count=60):
                 script.append(dict(t=t1 + 1, call='fail', dev=2, arg=rng.choice([0, 1])))
             cfg = dict(devs=devs, script=script, horizon=H + 8, maintcap=rng.choice([1, 2, -1]))
             fam = 'workorders'
+        elif kind == 8 and i % 64 >= 32:   # a machine blocked on a slow downstream gets a second, idle downstream
+            devs = [src(1, rng.choice([4, 6, -1]), pval=1), dev(rng.choice(['processor', 'handler']), [1], cyc=1),
+                    dev('processor', [2], cyc=rng.choice([20, 30])), dev('sink', [3], cyc=0),
+                    dev(rng.choice(['handler', 'processor', 'buffer']), [], cyc=rng.choice([1, 2]), cap=2), dev('sink', [5], cyc=0)]
+            script = [dict(t=rng.choice([5, 7, 9]), call='rewire', dev=5, ups=[2])]
+            cfg = dict(devs=devs, script=script, horizon=H + 8)
+            fam = 'rewire'
         elif kind == 8:   # connections added or moved while the simulation runs
             devs = [src(rng.choice([1, 2]), rng.choice([3, 5, -1]), pval=1),
                     dev(rng.choice(['handler', 'processor']), [1], cyc=rng.choice([1, 2])),
